@@ -60,7 +60,8 @@ def _probes():
         ("validate_day366", lambda: _err(lambda: str(D.TimePoint(year=2001, day_of_year=366)))),
         ("add_month", lambda: str(_tp("2001-01-30T00Z") + D.Duration(months=1))),
         ("add_hours", lambda: str(_tp("2001-02-28T23Z") + D.Duration(hours=2))),
-        ("subtract", lambda: str(_tp("2002-001T00Z") - _tp("2001-001T00Z"))),
+        ("subtract", lambda: [str(_tp("2002-001T00Z") - _tp("2001-001T00Z")), str(_tp("2005-03-01T06:30Z") - _tp("2003-03-01T06:30Z")),
+                              str(_tp("1999-12-31T00Z") - _tp("2004-02-29T12Z"))]),
         ("add_day_week", lambda: [str(_tp("2002-W51-7T00Z") + D.Duration(days=8)), str(_tp("2005-W51-7T00Z") + D.Duration(days=8))]),
         ("recurrence", lambda: [str(p) for p in TRP().parse("R3/2001-02-28T00Z/P1D")]),
         ("strftime_j", lambda: _tp("2001-12-30T00Z").strftime("%j")),
@@ -122,7 +123,7 @@ def switch(spelling, channel):
                 os.environ["ISODATETIMECALENDAR"] = saved
     else:
         raise ValueError(channel)
-    CURRENT["cli"] = CLI_SPELLING[spelling] if channel != "operator_reset" else "gregorian"
+    CURRENT["cli"] = CLI_SPELLING[spelling.lower()] if channel != "operator_reset" else "gregorian"
 
 
 def run_history(history):
